@@ -36,12 +36,12 @@ package ice
 //@ enumerate C06 stores ice.Agent.nextPairID in (*Agent).addPair
 
 //@ func replacePairRemote
-//@   props C06 C03 C20
+//@   props C06 C03 C20 C07
 //@   modifies nothing
 //@   ensures fresh-replacement: result != nil && fresh(result) && result != pair
 //@   ensures same-identity: result.id == pair.id && result.Local == pair.Local && result.Remote == remote && result.iceRoleControlling == pair.iceRoleControlling
 //@   ensures C06 C03 C20 same-progress: result.state == pair.state && result.nominated == pair.nominated && result.nominateOnBindingSuccess == pair.nominateOnBindingSuccess && result.nominationValueOnBindingSuccess == pair.nominationValueOnBindingSuccess && result.bindingRequestCount == pair.bindingRequestCount
-//@   ensures same-counters: result.packetsSent == pair.packetsSent && result.packetsReceived == pair.packetsReceived && result.bytesSent == pair.bytesSent && result.bytesReceived == pair.bytesReceived && result.requestsReceived == pair.requestsReceived && result.requestsSent == pair.requestsSent && result.responsesReceived == pair.responsesReceived && result.responsesSent == pair.responsesSent
+//@   ensures C06 C07 same-counters: result.packetsSent == pair.packetsSent && result.packetsReceived == pair.packetsReceived && result.bytesSent == pair.bytesSent && result.bytesReceived == pair.bytesReceived && result.requestsReceived == pair.requestsReceived && result.requestsSent == pair.requestsSent && result.responsesReceived == pair.responsesReceived && result.responsesSent == pair.responsesSent
 //@   ensures same-rtt: result.currentRoundTripTime == pair.currentRoundTripTime && result.totalRoundTripTime == pair.totalRoundTripTime
 //@   ensures same-packet-times: result.lastPacketSentAt == pair.lastPacketSentAt && result.lastPacketReceivedAt == pair.lastPacketReceivedAt
 //@   ensures old-pair-untouched: pair.state == old(pair.state) && pair.id == old(pair.id)
